@@ -12,3 +12,18 @@ package cfgbackend
 //@   noverify
 //@   pure
 //@   ensures ok == E(key)
+
+// ---------------------------------------------------------------------------------------------------------
+// C07: run numbers are unique and strictly increasing.
+// Ghost model of the Consul key in /verif/contracts/ext/base.gvc (api.kVal = the number stored, api.preVal = the number
+// stored immediately before the CAS took effect). A successful call returns preVal+1 (1 for a fresh key), stores exactly
+// that, and it is larger than every number stored before the call started; the write is the atomic CAS or nothing.
+//@ func (cc *ConsulSource) GetNextUInt32(key string) (value uint32, err error)
+//@   property C07
+//@   opt strings=uf
+//@   requires cc != nil && cc.kv != nil
+//@   requires api.kIdx >= 0 && api.kVal >= 0 && (api.kExists ==> api.kIdx > 0) && (!api.kExists ==> api.kVal == 0)
+//@   ensures err == nil ==> api.wrote && api.kVal == value
+//@   ensures err == nil && api.preExists ==> value == api.preVal + 1
+//@   ensures err == nil && !api.preExists ==> value == 1
+//@   ensures err == nil ==> value > old(api.kVal)
